@@ -30,6 +30,10 @@ CHECKS["C10"] = ("abstract evaluation of Diagram.swap on symbolic types in three
     "Decides for all types and permutations: swap(left, right) is typed left@right -> right@left on distinct wire atoms (hence, by parametricity and induction on |left|, realises exactly the block "
     "permutation), permutation's layer and its update of `perm` are the same cut-and-paste (invariant: wire at p ends at perm[p]), non-permutations and length mismatches are refused, and each "
     "diagram class (rigid, tensor, circuit, zx) passes its own Diagram/Swap classes.", TB, "DESIGN.md §4 C10")
+CHECKS["C18"] = ("symbolic evaluation of biclosed box signatures, functor routing and rigid methods on adjoint words in all emptiness cases; generic-iteration evaluation of eager_parse; guard/def-use rules for CFG.generate; shape rules for cat2ty/tree2diagram",
+    "Decides type preservation of the biclosed->rigid translation for FA, BA, FC, BC, FX, BX and Curry on symbolic multi-wire (possibly empty) types, with box signatures, routing and slash images all "
+    "extracted from source; decides that eager_parse only contracts adjacent adjoints with a partitioning layer and returns only the target type, that CFG.generate only applies the grammar's "
+    "productions to a matching leftmost symbol and yields closed sentences, and the slash directions of cat2ty. Not decided: which derivations a random CFG run produces.", TB, "DESIGN.md §4 C18")
 NOT_YET = "check not built yet in this round (static rules designed in DESIGN.md §4; will be claimed when the rule module lands)"
 NOT_APPLICABLE = {("C%02d" % i): NOT_YET for i in range(1, 21) if ("C%02d" % i) not in CHECKS}
 NOTES = ("All checks are static analyses of /repo/discopy's source (python -m sa.check <id>); exit 0 / 1 (VIOLATION) / 2 (ANALYSIS-ERROR). "
